@@ -1,11 +1,11 @@
 SPECIFICATION Spec
-CONSTANTS T = 4
+CONSTANTS T = 5
  P = 2
- F = 2
+ F = 1
  Guarded = TRUE
- Kinds = {"exception"}
+ Kinds = {"exception", "base", "stop"}
  Serial = FALSE
- FaultSets <- AllFaultSets
+ FaultSets <- UpToTwoFaults
 INVARIANT ScheduleIndependent
 INVARIANT WriteSetsDisjoint
 INVARIANT RaisesIffFaultConsulted
